@@ -204,6 +204,9 @@ class Sim(object):
         # simulated processes may run on different hosts / in different pid namespaces that share the file system:
         # 0 = all pids distinct, m > 0 = the pid of process k is k mod m (collisions)
         self.pid_mod = (0, 0, 0, 1, 2)[d(5, kind="pid_namespaces")]
+        # one run in three: every simulated process runs on a host of its own (a cluster sharing the file system): the
+        # lock-file library records a per-process pid and host name, and no process can probe another one's pid
+        self.multi_host = d(3, kind="hosts") == 2
         self._pct_changes = ()
         if self.strategy == "pct":
             k = d(4, kind="pct_k")
